@@ -255,6 +255,45 @@ def tree(block, conv):
     return out
 
 
+def tree_final(block, conv, core=None):
+    """tree of the FINAL IR (after dispatch-regions and snax-to-func): the core of an op is the core guard it sits
+    under; an unguarded DM/compute op is executed by every core (one leaf per core); barriers are the calls to
+    snax_cluster_hw_barrier"""
+    from props import c14
+    out = []
+    for op in block.ops:
+        n = op.name
+        if n == "scf.for":
+            out.append(("RFor", conv.oid(op), tree_final(op.body.block, conv, core)))
+        elif n == "scf.if":
+            k = c14._cmp_const(op.cond)
+            if k is not None:
+                out += tree_final(op.true_region.block, conv, int(k))
+            else:
+                th = tree_final(op.true_region.block, conv, core)
+                el = tree_final(op.false_region.block, conv, core) if op.false_region.blocks else []
+                out.append(("RIf", conv.oid(op), th, el))
+        elif n == "func.call" and op.callee.string_value() == "snax_cluster_hw_barrier":
+            out.append(("RLeaf", conv.oid(op), -1, True, [], []))
+        elif n == "snax.cluster_sync_op":
+            out.append(("RLeaf", conv.oid(op), -1, True, [], []))
+        elif n in ("memref.copy", "linalg.generic", "dart.operation"):
+            if n == "memref.copy":
+                rd, wr = [root_of(op.source, conv)], [root_of(op.destination, conv)]
+            else:
+                rd = [root_of(v, conv) for v in op.inputs if is_memref(v)]
+                wr = [root_of(v, conv) for v in op.outputs if is_memref(v)]
+            for c in ([core] if core is not None else [0, 1]):
+                out.append(("RLeaf", conv.oid(op), c, False, rd, wr))
+        elif n == "scf.yield":
+            continue
+        else:
+            if any(True for r in op.regions for b in r.blocks for _ in b.ops):
+                raise Unsupported(f"region op {n}")
+            out.append(("RLeaf", conv.oid(op), -1, False, [], []))
+    return out
+
+
 def coq_tree(t):
     def st(s):
         if s[0] == "RLeaf":
@@ -399,6 +438,7 @@ def run_l2(ctx, texts_in):
             flat, bars, t, conv, mod = run_real(text)
             for pr in sorted(set(after_passes(mod))):
                 fails.append({"what": pr, "text": text, "klass": None})
+            t_final = tree_final(find_func(mod).body.blocks[0], conv)
         except Unsupported as e:
             fails.append({"what": "convert", "detail": str(e), "text": text, "klass": None})
             continue
@@ -406,7 +446,9 @@ def run_l2(ctx, texts_in):
             fails.append({"what": "pass crash / invalid IR", "detail": repr(e)[:300], "text": text, "klass": None})
             continue
         cases.append(f"({coq_flat(flat)}, {vlib.zlist(bars)}, {coq_tree(t)})")
-        meta.append(text)
+        meta.append((text, "after insert-sync-barrier"))
+        cases.append(f"({coq_flat(flat)}, {vlib.zlist(bars)}, {coq_tree(t_final)})")
+        meta.append((text, "in the final IR (after dispatch-regions and snax-to-func)"))
     shards = [cases[i:i + SH] for i in range(0, len(cases), SH)]
     texts = [HEADER + L2_DEFS + f"Definition cs : list (list opinfo * list Z * list rstmt) := {coqlist(sh)}.\nEval vm_compute in map l2_eval cs.\n"
              for sh in shards]
@@ -423,8 +465,9 @@ def run_l2(ctx, texts_in):
         for ci, row in enumerate(rows):
             if row:
                 a, b, cls = row
-                fails.append({"what": f"ops #{a} and #{b} (different cores) conflict with no barrier between them on some path",
-                              "ops": [a, b], "text": meta[si * SH + ci], "klass": KLASS[cls]})
+                text, where = meta[si * SH + ci]
+                fails.append({"what": f"ops #{a} and #{b} (different cores) conflict with no barrier between them on some path {where}",
+                              "ops": [a, b], "text": text, "klass": KLASS[cls]})
     return fails
 
 
@@ -509,6 +552,17 @@ CORPUS = [
   %e1 = memref.alloc() : memref<64xi64>
   "memref.copy"(%e1, %e0) : (memref<64xi64>, memref<64xi64>) -> ()
   """ + mc_ir.t_stream("snax_xdma", "add", "%e0", "%e0", "%e1", 1, el="i64") + """
+  func.return
+}""",
+    # early free: load / compute / dealloc(input) / DM store(result): the barrier in front of the dealloc is the
+    # only one between the compute op and the store
+    """func.func @f(%a0 : memref<64xi32>, %a1 : memref<64xi32>, %n : index, %cond : i1) {
+  %b0 = memref.alloc() : memref<64xi32>
+  %b1 = memref.alloc() : memref<64xi32>
+  "memref.copy"(%a0, %b0) : (memref<64xi32>, memref<64xi32>) -> ()
+  """ + mc_ir.t_generic(["%b0"], ["%b1"], 1) + """
+  "memref.dealloc"(%b0) : (memref<64xi32>) -> ()
+  "memref.copy"(%b1, %a1) : (memref<64xi32>, memref<64xi32>) -> ()
   func.return
 }""",
     # loop body whose last cross-core op is the compute op
